@@ -8,6 +8,7 @@ open Sexp
 open Evalcommon
 
 let case_unify a b = L [ A "unify"; L [ A "ctx" ]; sexp_of_term a; sexp_of_term b ]
+let case_unify_ctx bs d a b = L [ A "unify"; Ctxcommon.ctx_sexp bs; sexp_of_term ~depth:d a; sexp_of_term ~depth:d b ]
 
 (* punch holes: replace up to k subterms (chosen by pre-order index) at binder depth d by the hole
    (id, shift d); the same id may be used twice only for syntactically equal lowered subterms *)
@@ -40,7 +41,7 @@ let punch (r : Rng.t) (t : term) (nholes : int) : term =
       | TIf (c, x, y) -> let c' = go c d in let x' = go x d in TIf (c', x', go y d) in
   go t 0
 
-let gen ~(tier : string) ~(seed : int) ~(emit : Sexp.t -> unit) : unit =
+let gen_closed ~(tier : string) ~(seed : int) ~(emit : Sexp.t -> unit) : unit =
   let r = Rng.make (seed * 2147483 + 12) in
   let maxn = if tier = "quick" then 4 else 5 in
   let tbl = Gen_terms.enum_exact 2 maxn in
@@ -121,6 +122,64 @@ let gen ~(tier : string) ~(seed : int) ~(emit : Sexp.t -> unit) : unit =
     end
   done
 
+(* unification under contexts with parameters and definition groups: holes written at the context's depth or
+   further out (shift up to context depth + binder depth), against the term they were punched from, against its
+   (weak-head) normal form, and a bare hole against every variable of the context (aliases whose definition is
+   closed although the variable itself is not in scope where the hole was written) *)
+let punch_shifted (r : Rng.t) (t : term) (nholes : int) (ctx_depth : int) : term =
+  let n = size t in
+  let targets = List.init nholes (fun _ -> Rng.int r n) in
+  let k = ref (-1) in
+  let next_id = ref 0 in
+  let rec go (t : term) (d : int) : term =
+    incr k;
+    if List.mem !k targets && !k > 0 then begin
+      let id = !next_id in incr next_id;
+      k := !k + size t - 1;
+      (* home: the context's depth (shift = binder depth), or somewhere further out *)
+      let sh = if Rng.chance r 2 3 then d else d + Rng.int r (ctx_depth + 1) in
+      THole (nat_of_int id, nat_of_int sh)
+    end else
+      match t with
+      | THole _ | TType | TInt | TBool | TTrue | TFalse | TLit _ | TVar _ -> t
+      | TLam (im, a, b) -> let a' = go a d in TLam (im, a', go b (d + 1))
+      | TPi (im, a, b) -> let a' = go a d in TPi (im, a', go b (d + 1))
+      | TApp (f, x) -> let f' = go f d in TApp (f', go x d)
+      | TLet (ds, b) ->
+        let d' = d + List.length ds in
+        let ds' = List.map (fun (a, x) -> let a' = go a d' in (a', go x d')) ds in
+        TLet (ds', go b d')
+      | TNeg x -> TNeg (go x d)
+      | TBin (o, x, y) -> let x' = go x d in TBin (o, x', go y d)
+      | TIf (c, x, y) -> let c' = go c d in let x' = go x d in TIf (c', x', go y d) in
+  go t 0
+
+let gen_ctx ~(tier : string) ~(seed : int) ~(emit : Sexp.t -> unit) : unit =
+  let r = Rng.make (seed * 48611 + 1212) in
+  let open Ctxcommon in
+  for _ = 1 to (if tier = "quick" then 4000 else 40000) do
+    let bs = random_ctx r in
+    let d = depth_of bs in
+    let g = ctx_oracle bs in
+    let fuel = nat_of_int 60 in
+    let t = Gen_terms.random_term r (2 + Rng.int r 12) d 0 in
+    if nf fuel g t <> None then begin
+      let p = punch_shifted r t (1 + Rng.int r 2) d in
+      if Rng.bool r then emit (case_unify_ctx bs d p t) else emit (case_unify_ctx bs d t p);
+      (match whnf fuel g t with Some u when u <> t -> emit (case_unify_ctx bs d p u) | _ -> ())
+    end;
+    (* a bare hole written outside k of the context's entries, against each variable *)
+    if d >= 1 && d <= 6 && Rng.chance r 1 3 then
+      for i = 0 to d - 1 do
+        let sh = Rng.int r (d + 1) in
+        let h = THole (O, nat_of_int sh) and v = TVar (nat_of_int i) in
+        if whnf fuel g v <> None then (if Rng.bool r then emit (case_unify_ctx bs d h v) else emit (case_unify_ctx bs d v h))
+      done
+  done
+
+let gen ~(tier : string) ~(seed : int) ~(emit : Sexp.t -> unit) : unit =
+  gen_closed ~tier ~seed ~emit; gen_ctx ~tier ~seed ~emit
+
 (* zonk with the final store; None if the store is cyclic *)
 let zonk (store : (int * term option) list) (t : term) : term option =
   let exception Cyclic in
@@ -144,7 +203,7 @@ let zonk (store : (int * term option) list) (t : term) : term option =
   try Some (go t []) with Cyclic -> None
 
 (* home depth of every hole: binder depth of an occurrence minus its shift (None if occurrences disagree) *)
-let homes (ts : term list) : (int * int option) list =
+let homes ?(base = 0) (ts : term list) : (int * int option) list =
   let tbl = Hashtbl.create 8 in
   let rec go (t : term) (d : int) : unit =
     match t with
@@ -160,7 +219,7 @@ let homes (ts : term list) : (int * int option) list =
     | TLet (ds, b) -> let d' = d + List.length ds in List.iter (fun (a, x) -> go a d'; go x d') ds; go b d'
     | TNeg x -> go x d
     | TIf (c, x, y) -> go c d; go x d; go y d in
-  List.iter (fun t -> go t 0) ts;
+  List.iter (fun t -> go t base) ts;
   Hashtbl.fold (fun k v acc -> (k, v) :: acc) tbl []
 
 let parse_store (x : Sexp.t) : (int * term option) list =
@@ -172,8 +231,15 @@ let parse_store (x : Sexp.t) : (int * term option) list =
   | _ -> raise (Parse_error "store")
 
 let check (case : Sexp.t) (res : Sexp.t) : [ `Ok | `Mismatch of string | `Property of string ] * bool =
-  let closed_case = (match case with L [ A "unify"; _; ca; cb ] -> (try C06.is_closed (term_of_sexp ca) && C06.is_closed (term_of_sexp cb) with _ -> false) | _ -> true) in
-  if not closed_case then (`Ok, false) else
+  let blocks = (match case with L [ A "unify"; cx; _; _ ] -> (try Ctxcommon.blocks_of_sexp cx with _ -> []) | _ -> []) in
+  let cdepth = Ctxcommon.depth_of blocks in
+  let g = Ctxcommon.ctx_oracle blocks in
+  let dctx = List.map (fun e -> match e with ((_, k), Some d) -> Some (d, k) | (_, None) -> None) g in
+  let scoped_case = (match case with
+      | L [ A "unify"; _; ca; cb ] ->
+        (try Ctxcommon.ctx_scoped blocks && Ctxcommon.scoped cdepth (term_of_sexp ca) && Ctxcommon.scoped cdepth (term_of_sexp cb) with _ -> false)
+      | _ -> true) in
+  if not scoped_case then (`Ok, false) else
   match case, res with
   | _, L [ A "panic"; m ] -> (`Property ("panic " ^ atom m), true)
   | L [ A "unify"; _; ca; cb ], L [ A "unify"; ok; pa; pb; st; ctx; L (A "hooks" :: hk) ] ->
@@ -184,7 +250,7 @@ let check (case : Sexp.t) (res : Sexp.t) : [ `Ok | `Mismatch of string | `Proper
     let store = parse_store st in
     (* Model B correspondence: same verdict, and the same two sides after zonking with the model's store *)
     let mb_mismatch =
-      (match unifyB Mb.fuel_b (List.init (max (Mb.max_hole a0) (Mb.max_hole b0) + 1) (fun _ -> None)) [] a0 b0 with
+      (match unifyB Mb.fuel_b (List.init (max (Mb.max_hole a0) (Mb.max_hole b0) + 1) (fun _ -> None)) dctx a0 b0 with
        | None -> None
        | Some (mok, mstore) ->
          if mok <> (atom ok = "1") then Some (Printf.sprintf "unify returns %s, Model B returns %b" (atom ok) mok)
@@ -200,12 +266,12 @@ let check (case : Sexp.t) (res : Sexp.t) : [ `Ok | `Mismatch of string | `Proper
       match zonk store a, zonk store b with
       | None, _ | _, None -> (`Property "a hole is solved by a term containing itself (cyclic store)", true)
       | Some za, Some zb ->
-        let hm = homes [ a0; b0 ] in
+        let hm = homes ~base:cdepth [ a0; b0 ] in
         if List.exists (fun (id, s) -> match s, List.assoc_opt id hm with
             | Some sol, Some (Some home) -> List.exists (fun v -> int_of_nat v >= home) (fvl sol O)
             | _ -> false) store then
           (`Property ("a solution mentions a variable that is not in scope where its hole was written" ^ sg), true)
-        else (match convb fuel_infer [] za zb with
+        else (match convb fuel_infer g za zb with
             | Some true -> ((match mb_mismatch with Some m -> `Mismatch m | None -> `Ok), true)
             | Some false -> (`Property ("unification succeeded but filling the holes does not make the two terms definitionally equal" ^ sg), true)
             | None -> (`Ok, false))
